@@ -82,3 +82,50 @@ Lemma guard_stops c m k r t ms p tv e :
    | None => body c m r t
    end) = (@fail reply e).
 Proof. intros ->. reflexivity. Qed.
+
+(** the abstraction of a model state (C04) *)
+From P9V Require Import Server.SessionSpec.
+Definition abs_state (s : sstate) : astate :=
+  mkA (fun c f => match tlookup (c, f) (st_fids s) with Some r => Some (view_of s r) | None => None end)
+      (fun c => alookup c (st_msize s)).
+
+Lemma unsafe_rejected' s c m k tape :
+  kind_of m = Some k -> forallb safe_nameb (names_of m) = false -> step s c m tape = (s, RErr linux_EINVAL, [], tape).
+Proof.
+  intros Hk Hn. unfold step, handler.
+  destruct m; cbn in Hk; try discriminate; unfold guarded; rewrite Hn; reflexivity.
+Qed.
+
+Lemma refines_rejections s c m tape e :
+  spec_reject (abs_state s) c m = Some e ->
+  (match m with Tauth _ _ _ _ | Tother _ => True | Tattach _ afid _ _ _ => afid <> p9_noFID
+              | Tclunk f => True
+              | _ => exists k, kind_of m = Some k /\
+                               (forallb safe_nameb (names_of m) = false \/ tlookup (c, fid1_of m) (st_fids s) = None)
+   end) ->
+  step s c m tape = (s, RErr e, [], tape).
+Proof.
+  intros Hr Hc.
+  assert (G : forall k, kind_of m = Some k ->
+              (forallb safe_nameb (names_of m) = false \/ tlookup (c, fid1_of m) (st_fids s) = None) ->
+              (forall f, m <> Tclunk f) -> (forall a b c0 d e0, m <> Tattach a b c0 d e0) ->
+              (forall a b c0 d, m <> Tauth a b c0 d) -> (forall t, m <> Tother t) -> (forall a b, m <> Tversion a b) -> (forall a, m <> Tflush a) ->
+              step s c m tape = (s, RErr e, [], tape)).
+  { intros k Hk Hcase N1 N2 N3 N4 N5 N6.
+    destruct (forallb safe_nameb (names_of m)) eqn:Hn.
+    - destruct Hcase as [Hx|Hu]; [discriminate|].
+      assert (e = linux_EBADF).
+      { unfold spec_reject in Hr. destruct m; cbn in Hk; try discriminate; cbn [kind_of] in Hr; rewrite Hn in Hr; cbn [negb] in Hr;
+          cbn [abs_state a_fids] in Hr; unfold connid, fid in *; cbn in Hu; cbn [fid1_of] in Hr; rewrite Hu in Hr; inversion Hr; reflexivity. }
+      subst. eapply unbound_ebadf; eauto.
+    - assert (e = linux_EINVAL).
+      { unfold spec_reject in Hr. destruct m; cbn in Hk; try discriminate; cbn [kind_of] in Hr; rewrite Hn in Hr; inversion Hr; reflexivity. }
+      subst. eapply unsafe_rejected'; eauto. }
+  destruct m; try (destruct Hc as (k & Hk & Hcase); eapply G; eauto; intros; discriminate).
+  - (* Tauth *) cbn in Hr. inversion Hr. reflexivity.
+  - (* Tattach *) unfold spec_reject in Hr. apply N.eqb_neq in Hc. rewrite Hc in Hr. inversion Hr; subst.
+    apply attach_authfid. now apply N.eqb_neq.
+  - (* Tclunk *) unfold spec_reject in Hr. cbn [abs_state a_fids] in Hr.
+    destruct (tlookup (c, f) (st_fids s)) eqn:E; [discriminate|]. inversion Hr; subst. now apply clunk_unbound.
+  - (* Tother *) cbn in Hr. inversion Hr. reflexivity.
+Qed.
